@@ -117,12 +117,21 @@ class HookWorld(World):
             elif r < 0.85:
                 ops.append({"op": "manual", "i": i, "force": ro.random() < 0.4, "ignore_mode": ro.random() < 0.4})
             elif r < 0.93:
-                ops.append({"op": "delete", "i": i})
+                ops.append({"op": "delete", "i": i, "collect": stream(seed, f"collect{len(ops)}").random() < 0.5})
             else:
                 ops.append({"op": "perturb", "pseed": ro.randrange(1 << 30), "zero_row": ro.random() < 0.3, "scale": ro.choice([0.5, 3.0, 10.0])})
         return {"config": cfg, "ops": ops}
 
     def execute(self, desc, ctx):
+        was = gc.isenabled()
+        gc.disable()        # object death happens exactly where the run description says (explicit collector passes only)
+        try:
+            return self._execute(desc, ctx)
+        finally:
+            if was:
+                gc.enable()
+
+    def _execute(self, desc, ctx):
         from inferno import StateHook
         from inferno.neural import Clamping, Normalization
 
@@ -412,7 +421,11 @@ class HookWorld(World):
                 else:
                     ctx.fault("hook_collected")
                 del hooks[s]
-                gc.collect()
+                if op.get("collect", True):
+                    gc.collect()
+                else:
+                    # last reference dropped, no collector pass: the hook holds no reference cycle, so it is finalised at once
+                    ctx.fault("hook_dropped_without_collector_pass")
                 m["alive"] = False
                 m["registered"] = False
                 tomb = f"{s}-dead{len(model)}"
